@@ -356,7 +356,9 @@ func c18API(seed uint64, budget int, lg *caseLog) c18Report {
 	opBz, _ := json.Marshal(res)
 	rid, _ := hex.DecodeString(ce.Round)
 	reBz, _ := json.Marshal(types.ReDKG{DKGID: strings.Repeat("c", 64), Threshold: 2, Participants: []types.Participant{{Name: "node_0", DKGPubKey: fakeKey("d", 0), NewCommPubKey: w.Nodes[0].KeyPair.Pub}, {Name: "node_1", DKGPubKey: fakeKey("d", 1), NewCommPubKey: v.KeyPair.Pub}}, Messages: w.Board.All()[:2]})
-	msgBz, _ := json.Marshal(w.Board.All()[0])
+	m0 := w.Board.All()[0]
+	m0.ID = "0f8fad5b-d9cb-469f-a165-70867728950e" // the in-memory board's short ids do not pass the form's validation
+	msgBz, _ := json.Marshal(m0)
 	endpoints := []struct {
 		path string
 		body []byte
